@@ -292,10 +292,14 @@ def spec_body(case):
             check([int(x) for x in g] == exp, 'specobjid-scalar-vs-array',
                   lambda: dict(rows=rows, got=[int(x) for x in g], want=exp, dtype=str(dt)))
     for label, ids in (('uint64', np.array(exp, dtype=np.uint64)), ('str', np.array([str(e) for e in exp])),
-                       ('uint64-bigendian', np.array(exp, dtype=np.uint64).astype('>u8'))):
+                       ('uint64-bigendian', np.array(exp, dtype=np.uint64).astype('>u8'))) + (
+                      # round 11: the IDs of a (2, n/2) table, as unwrap_objid is asked too: element by element the same answers
+                      (('uint64-2d', np.array(exp, dtype=np.uint64).reshape(2, -1)), ('str-2d', np.array([str(e) for e in exp]).reshape(2, -1))) if len(exp) >= 2 and len(exp) % 2 == 0 else ()):
         for as_int in (True, False):
             un = call(unwrap_specobjid, ids, run2d_integer=as_int, specLineIndex=(low == 'index'))
             with judge('unwrap-spec-' + label):
+                check(np.shape(un) == np.shape(ids), 'unwrap-spec-%s:shape' % label, lambda: dict(got=np.shape(un), want=np.shape(ids)))
+                un = np.ravel(un)
                 for k in ('plate', 'fiber', 'mjd'):
                     got = [int(x) for x in un[k]]
                     check(got == [r[k] for r in rows], 'unwrap-spec-%s:%s' % (label, k), lambda: dict(rows=rows, got=got))
